@@ -20,7 +20,10 @@ package limiter
 //@   ensures [not_leader] !isLeaderOf(old(r.leaderElector), shardOf(upstream, old(r.shardCount))) ==> result1 != nil && result == nil && storeops == old(storeops)
 //@   loop 0: invariant [t] true
 
-//@ func (*rateLimiter).UpstreamConditionHandler props C13
+// (C07) The mutex that serialises the read-compute-save section of an upstream is created once and never replaced: two
+// reports of one upstream (and the handler of its limit changes) always take the SAME mutex.
+//@ func (*rateLimiter).UpstreamConditionHandler props C13, C07
+//@   ensures [upstream_lock_stable] forall n string :: {n in r.upstreamLock} old(n in r.upstreamLock) ==> (n in r.upstreamLock) && r.upstreamLock[n] == old(r.upstreamLock[n])
 //@   requires [n_range] 1 <= r.shardCount && r.shardCount <= 4294967295
 //@   modifies *
 //@   ensures [not_leader] !isLeaderOf(old(r.leaderElector), shardOf(old(cluster.Name), old(r.shardCount))) ==> result == nil && storeops == old(storeops)
